@@ -29,7 +29,7 @@ const sweepLogin, sweepPassword = "qryn-user", "s3:cr et/+"
 
 type sweepCase struct {
 	Mode  string    `json:"mode"`
-	Cors  bool      `json:"cors"`
+	Cors  int       `json:"cors"` // index into sweepCors
 	Route RouteInfo `json:"route"`
 }
 
@@ -53,6 +53,10 @@ func fixedAuths(login, pass string) [][2]string {
 	}
 }
 
+// sweepOrigins: Origin header variants against sweepCors[2] (a list): listed, unlisted,
+// null, case and trailing-slash variants of a listed one.
+var sweepOrigins = []string{"http://grafana.local", "https://other.example:3000", "http://evil.example", "null", "HTTP://GRAFANA.LOCAL", "http://grafana.local/"}
+
 func sweepRequests(ri RouteInfo) []Req {
 	path := FillTemplate(ri.Template, []string{"x", "y", "z"})
 	if ri.Prefix {
@@ -62,6 +66,7 @@ func sweepRequests(ri RouteInfo) []Req {
 	if len(methods) == 0 {
 		methods = []string{"GET", "POST"}
 	}
+	own := len(methods)
 	has := map[string]bool{}
 	for _, m := range methods {
 		has[m] = true
@@ -77,24 +82,21 @@ func sweepRequests(ri RouteInfo) []Req {
 	}
 	var out []Req
 	auths := fixedAuths(sweepLogin, sweepPassword)
-	for _, m := range methods {
-		mk := func(a [2]string, ae string, origin bool) Req {
-			// start/end: TempoController.ValuesV2 never answers without them when the
-			// database is unreachable (its own defect, behind the credentials)
-			q := Req{Method: m, Path: path, Query: "start=1&end=2", AuthKind: a[0], AE: ae, HasOrigin: origin}
-			if a[0] != "absent" {
-				q.HasAuth, q.Auth = true, evid.Str(a[1])
-			}
-			if origin {
-				q.Origin = "http://evil.example"
-			}
-			if m == "OPTIONS" || origin {
-				q.ACRM = "POST" // preflight, or a stray preflight header on an ordinary request
-			}
-			return q
+	mk := func(m, path string, a [2]string, ae string, origin string, hasOrigin bool) Req {
+		// start/end: TempoController.ValuesV2 never answers without them when the
+		// database is unreachable (its own defect, behind the credentials)
+		q := Req{Method: m, Path: path, Query: "start=1&end=2", AuthKind: a[0], AE: ae, HasOrigin: hasOrigin, Origin: origin}
+		if a[0] != "absent" {
+			q.HasAuth, q.Auth = true, evid.Str(a[1])
 		}
+		if m == "OPTIONS" || origin == "http://evil.example" {
+			q.ACRM = "POST" // preflight, or a stray preflight header on an ordinary request
+		}
+		return q
+	}
+	for mi, m := range methods {
 		for _, a := range auths {
-			out = append(out, mk(a, "", false))
+			out = append(out, mk(m, path, a, "", "", false))
 		}
 		for _, ai := range []int{0, 2, 3, 9} { // absent, right, right+junk, wrong password
 			for _, ae := range []string{"", "gzip", "br", "gzip;q=0"} {
@@ -102,41 +104,85 @@ func sweepRequests(ri RouteInfo) []Req {
 					if ae == "" && !origin {
 						continue
 					}
-					out = append(out, mk(auths[ai], ae, origin))
+					o := ""
+					if origin {
+						o = "http://evil.example"
+					}
+					out = append(out, mk(m, path, auths[ai], ae, o, origin))
 				}
 			}
+		}
+		for _, ai := range []int{0, 2} { // absent, right: every Origin variant
+			for _, origin := range sweepOrigins {
+				if origin == "http://evil.example" {
+					continue // above
+				}
+				out = append(out, mk(m, path, auths[ai], "", origin, true))
+			}
+		}
+		if mi >= own || ri.Prefix || path == sentinelPath || path == "/" {
+			continue
+		}
+		// trailing-slash and case variants of the registered path, with the route's own
+		// methods: nobody registered them, so no handler may run for them - not through a
+		// router-wide not-found / redirect handler either - with or without credentials
+		for _, vp := range []string{path + "/", flipCase(path), capFirst(path)} {
+			if vp == path {
+				continue
+			}
+			for _, ai := range []int{0, 2, 3, 9} {
+				out = append(out, mk(m, vp, auths[ai], "", "", false))
+			}
+			out = append(out, mk(m, vp, auths[0], "gzip", "http://evil.example", true))
 		}
 	}
 	return out
 }
 
+// sweepCors: CORS disabled, any origin, a comma-separated list (its first element alone is
+// the "one explicit origin" configuration, which the random check also draws).
+var sweepCors = []struct {
+	on     bool
+	origin string
+}{{false, ""}, {true, "*"}, {true, "http://grafana.local,https://other.example:3000"}, {true, "http://grafana.local"}}
+
+type appPair struct{ app, twin *App }
+
 var (
 	sweepMu   sync.Mutex
-	sweepApps = map[string]*App{}
+	sweepApps = map[string]appPair{}
 )
 
-// sweepApp caches one assembly per (mode, cors): routes do not depend on anything else and
-// a router keeps no per-request state.
-func sweepApp(mode string, cors bool) (*App, error) {
+// sweepPair caches one assembly (and its twin without credentials) per (mode, cors): routes
+// do not depend on anything else and a router keeps no per-request state.
+func sweepPair(mode string, cors int) (appPair, error) {
 	sweepMu.Lock()
 	defer sweepMu.Unlock()
-	k := fmt.Sprintf("%s/%v", mode, cors)
-	if a, ok := sweepApps[k]; ok {
-		return a, nil
+	k := fmt.Sprintf("%s/%d", mode, cors)
+	if p, ok := sweepApps[k]; ok {
+		return p, nil
 	}
-	a, err := Assemble(Settings{Login: sweepLogin, Password: sweepPassword, Cors: cors, Origin: "*", Mode: mode})
+	a, t, err := AssemblePair(Settings{Login: sweepLogin, Password: sweepPassword, Cors: sweepCors[cors].on, Origin: sweepCors[cors].origin, Mode: mode})
 	if err != nil {
-		return nil, err
+		return appPair{}, err
 	}
-	sweepApps[k] = a
-	return a, nil
+	sweepApps[k] = appPair{a, t}
+	return sweepApps[k], nil
+}
+
+func sweepApp(mode string, cors int) (*App, error) {
+	p, err := sweepPair(mode, cors)
+	return p.app, err
 }
 
 var sweepModes = []string{"all", "writer", "reader"}
 
 func enumSweep(yield func(sweepCase)) {
 	for _, mode := range sweepModes {
-		for _, cors := range []bool{false, true} {
+		for cors := range sweepCors {
+			if cors == 3 && mode != "all" {
+				continue // single explicit origin: mode all only
+			}
 			a, err := sweepApp(mode, cors)
 			if err != nil {
 				panic("c20: assembly failed: " + err.Error())
@@ -146,18 +192,22 @@ func enumSweep(yield func(sweepCase)) {
 			}
 			// and two paths nobody registered (NotFoundHandler / catch-all mistakes)
 			yield(sweepCase{Mode: mode, Cors: cors, Route: RouteInfo{Template: "/", Methods: []string{"GET"}}})
-			yield(sweepCase{Mode: mode, Cors: cors, Route: RouteInfo{Template: "/c20/no/such/route", Methods: []string{"GET", "POST"}}})
+			yield(sweepCase{Mode: mode, Cors: cors, Route: RouteInfo{Template: sentinelPath, Methods: []string{"GET", "POST"}}})
 		}
 	}
 }
 
 func predSweep(c sweepCase, o *evid.Obs) error {
-	a, err := sweepApp(c.Mode, c.Cors)
+	if c.Cors < 0 || c.Cors >= len(sweepCors) {
+		o.Discard("unknown-cors-configuration")
+		return nil
+	}
+	p, err := sweepPair(c.Mode, c.Cors)
 	if err != nil {
 		return fmt.Errorf("assembly: %w", err)
 	}
 	o.NonTrivial() // the table contains one-edit headers for every route
-	return runRequests(a, sweepRequests(c.Route), false, o)
+	return runRequests(p.app, p.twin, sweepRequests(c.Route), false, o)
 }
 
 // ---- C20(d) "routes": every registration is behind the authenticated router ---------------
@@ -330,7 +380,7 @@ func predRoutes(c routesCase, o *evid.Obs) error {
 		o.Discard("route tables unreadable: " + err.Error())
 		return nil
 	}
-	a, err := sweepApp(c.Mode, false)
+	a, err := sweepApp(c.Mode, 0)
 	if err != nil {
 		return fmt.Errorf("assembly: %w", err)
 	}
@@ -428,5 +478,5 @@ func addSweep(r *evid.Run) {
 				yield(routesCase{Mode: m})
 			}
 		}})
-	evid.Add(r, evid.Prop[sweepCase]{Name: "sweep", Quick: 2000, Thorough: 2000, Pred: predSweep, Enumerate: enumSweep})
+	evid.Add(r, evid.Prop[sweepCase]{Name: "sweep", Quick: 4000, Thorough: 4000, Pred: predSweep, Enumerate: enumSweep})
 }
